@@ -44,9 +44,10 @@ KF_C08_id(ev) == "none"
 (* the second abilint round is a fixpoint.                                                                                     *)
 KF_C03_void(ev) == ev.hasVoid /\ ev.sameLinesModuloIds /\ ev.h2 = ev.h3
 
-(* C03: clang (limited debug info) describes some classes as declarations that nevertheless carry member functions; abidw writes   *)
-(* <class-decl is-declaration-only='yes'> with <member-function> children, the ABIXML reader does not attach member functions to a  *)
-(* declaration-only class, and abilint writes the class without them.  Classified as this finding only if the document has such      *)
+(* C03: compilers describe some C++ classes as declarations that nevertheless carry member functions or data members (clang's       *)
+(* limited debug info; gcc for a class completed in another unit); abidw writes <class-decl is-declaration-only='yes'> with           *)
+(* <member-function> / <data-member> children, the ABIXML reader does not attach them to a declaration-only class, and abilint       *)
+(* writes the class without them.  Classified as this finding only if the document has such      *)
 (* elements, the two documents have the same lines (type ids masked) once exactly those elements are removed from the first, and the  *)
 (* second abilint round is a fixpoint.                                                                                               *)
 KF_C03_declonly(ev) == ev.declOnlyMemFnLines > 0 /\ ev.sameLinesModuloIdsAndDeclOnlyMemFns /\ ev.h2 = ev.h3
